@@ -61,8 +61,9 @@ fn main() {
         Err(e) => errors.push(e),
     }
     match kernels::generate(&parsed) {
-        Ok((lean, info)) => {
+        Ok((lean, lean_cursor, info)) => {
             std::fs::write(out.join("Kernels.lean"), lean).expect("write");
+            std::fs::write(out.join("CursorKernels.lean"), lean_cursor).expect("write");
             manifest.insert("kernels".into(), info);
         }
         Err(e) => errors.push(e),
